@@ -112,6 +112,12 @@ def run_case(case, ctx):
         k = int(rng.integers(1, max(2, len(free))))
         ps = [free[int(i)] for i in rng.choice(len(free), size=min(k, len(free)), replace=False)]
         sel_pool.append((frozenset(ps), S.build(mk_sel(ps)), S.show(mk_sel(ps))))
+    # a selection that can switch a Cond (the choices feeding its predicate), when there is one
+    feeders = [p for p in sorted(spec.cond_feeders(prog)) if p in free]
+    if feeders:
+        ps = feeders[:2]
+        sel_pool[0] = (frozenset(ps), S.build(mk_sel(ps)), S.show(mk_sel(ps)))
+        ctx.count("programs_with_cond_feeder_selection")
     cont_sel = None
     if cont_free:
         ps = [cont_free[int(i)] for i in rng.choice(len(cont_free), size=min(2, len(cont_free)), replace=False)]
